@@ -364,6 +364,26 @@ def check(c, tier, replay):
             allparts += part
     for tag in ('directed', 'tlc', 'rand'):
         handle_mismatches(c, drv, allparts, [m for t, m in allm if t == tag], tag)
+    # free-running goroutines on one chain (repeated, late and SIMULTANEOUS Exit calls of the same entry): every statistic slot
+    # is told of completion exactly once per passed entry - judged at quiescence by EntryChain_Trace!TStress
+    st = []
+    for k, (w, it) in enumerate([(8, 300), (8, 300)] if tier != 'thorough' else [(16, 3000)] * 4):
+        tr += 1
+        st.append([dict(op='new', tr=tr, mode='stat', t=100, nodes=['r1', 'r2', '_in']),
+                   dict(op='slot', k='pre', ord=1000, beh='real'), dict(op='slot', k='rule', ord=1, beh='script', bm='ctx'),
+                   dict(op='slot', k='stat', ord=1000, beh='real'), dict(op='slot', k='stat', ord=2000, beh='pass'),
+                   dict(op='stress', workers=w, iters=it, seed=c.seed * 10 + k, panic_pct=0, res=['r1', 'r2'])])
+    mism, tp = run_and_validate(c, drv, st, 'stress0')
+    for tr0, line, exp, obs in mism:
+        s0 = [x for x in st if x[0]['tr'] == tr0][0]
+        rp = c.save_replay('stress-tr%d.ndjson' % tr0, s0)
+        again = [run_and_validate(c, drv, [s0], 'stress-confirm%d' % i)[0] for i in range(3)]
+        if sum(1 for a in again if a) >= 2:
+            c.violation('free-running Entry / Exit (incl. simultaneous Exit calls of one entry): a passed entry is not completed exactly once on every statistic slot: '
+                        + json.dumps(obs.get('rec'))[:300] + ' expected ' + exp[:300], rp)
+        else:
+            c.inconclusive.append('stress mismatch of trace %d did not reproduce' % tr0)
+        break
     c.cov.pop('reported', None)
     if 'binding_selftest' not in c.cov:
         c.inconclusive.append('binding self-test did not run')
